@@ -9,6 +9,11 @@ def cmd(pid, tier):
 
 # id -> (category, engine, technique, level text, level note, design ref)
 CHECKS = {
+ "C05": ("model_checking", "SCHED+ENUM",
+   "enumeration of server push sequences x all groupings into arrays x buffer sizes x consumer scripts, each scenario explored over the complete tree of interleavings (stateless DFS under the controlled scheduler); bounded-queue reference model replayed over each execution's trace",
+   "Two subscriptions + a pending call on the real async client; every push sequence of length <=3 (thorough 4) over 6 message kinds under every composition into consecutive single/array messages, buffer capacity {1,2} (thorough 3), 7 consumer scripts over {next, unsubscribe, drop}, numeric/string ids; all interleavings of deliveries and consumer actions; the reference model decides the exact items, order, end-of-stream reason (lagged/closed), number of unsubscribe requests naming the subscription on the wire, and the pending call's result.",
+   "Subscribe acknowledgements of the prelude are not scheduled; B's consumer is free-running; a single-call response is never packed into an array with notifications (not something a server does); when a close notification follows the lagging item inside the same array, 0 or 1 unsubscribe is accepted.",
+   "DESIGN.md §6 C05"),
  "C12": ("exploration", "ENUM+SCHED",
    "bounded-exhaustive enumeration of server reply sequences for batches (all permutations/subsets/duplications/foreign ids) through both clients against a positional reference; SCHED over delivery orders of concurrent batches",
    "For n = 1..3 (thorough 4) every reply sequence of length 0..n+1 over {ok/err answer for entry j, foreign id, non-numeric id} x id kind is delivered to the async client (CLI-MEM, real background tasks) and to the HTTP client (scripted tower layer, real HttpClient); result length, positional correctness of every entry, success/failure counts and into_ok() are judged; plus all delivery orders of 2 batches + calls in flight with reversed reply arrays.",
